@@ -361,6 +361,10 @@ pub enum MFault {
     Subst(u16, u8),
     Append(Vec<u8>),
     DupPrefix(u16),
+    /// insert one byte at a position (whitespace, NUL, extra digit, ... inside or around the payload)
+    Insert(u16, u8),
+    /// ASCII-lowercase the byte at a position (e.g. the "T" of the prefix)
+    Lower(u16),
 }
 
 fn apply_medium(doc: &mut Vec<u8>, faults: &[MFault]) {
@@ -384,6 +388,16 @@ fn apply_medium(doc: &mut Vec<u8>, faults: &[MFault]) {
                 let n = (*n as usize).min(doc.len());
                 let pre = doc[..n].to_vec();
                 doc.splice(0..0, pre);
+            }
+            MFault::Insert(p, b) => {
+                let i = *p as usize % (doc.len() + 1);
+                doc.insert(i, *b);
+            }
+            MFault::Lower(p) => {
+                if !doc.is_empty() {
+                    let i = *p as usize % doc.len();
+                    doc[i] = doc[i].to_ascii_lowercase();
+                }
             }
         }
     }
@@ -463,6 +477,8 @@ fn mf_json(m: &MFault) -> Value {
         MFault::Subst(p, v) => json!({"subst": [p, v]}),
         MFault::Append(v) => json!({"append": hex(v)}),
         MFault::DupPrefix(n) => json!({"dup_prefix": n}),
+        MFault::Insert(p, b) => json!({"insert": [p, b]}),
+        MFault::Lower(p) => json!({"lower": p}),
     }
 }
 fn mf_from(v: &Value) -> Result<MFault, String> {
@@ -482,6 +498,11 @@ fn mf_from(v: &Value) -> Result<MFault, String> {
         Ok(MFault::Append(unhex(x.as_str().ok_or("append")?)?))
     } else if let Some(n) = v.get("dup_prefix") {
         Ok(MFault::DupPrefix(n.as_u64().ok_or("n")? as u16))
+    } else if let Some(x) = v.get("insert") {
+        let (a, b) = two(x)?;
+        Ok(MFault::Insert(a as u16, b as u8))
+    } else if let Some(n) = v.get("lower") {
+        Ok(MFault::Lower(n.as_u64().ok_or("n")? as u16))
     } else {
         Err("unknown medium fault".into())
     }
@@ -584,6 +605,8 @@ where
             MFault::Subst(..) => "fault.byte_substitution",
             MFault::Append(_) => "fault.garbage_appended",
             MFault::DupPrefix(_) => "fault.duplicated_prefix",
+            MFault::Insert(..) => "fault.byte_inserted",
+            MFault::Lower(_) => "fault.byte_lowercased",
         });
     }
     if damaged && doc.len() == pristine.len() && h.fmt != 0 {
@@ -697,11 +720,23 @@ impl Scenario for C16 {
                     4..=5 => MFault::Subst(r.below(160) as u16, *r.pick(&[0u8, 0x30, 0x31, 0xa9, 0xaa, 0xff, b'g', b'"', b'T', 0x58, 0x40])),
                     6..=7 => MFault::Truncate(r.below(150) as u16),
                     8 => {
-                        let mut g = vec![0u8; r.range(1, 4) as usize];
-                        r.fill(&mut g);
-                        MFault::Append(g)
+                        if r.chance(1, 2) {
+                            let mut g = vec![0u8; r.range(1, 4) as usize];
+                            r.fill(&mut g);
+                            MFault::Append(g)
+                        } else {
+                            // positions biased to the edges of the payload (inside the JSON quotes / right after the envelope)
+                            let pos = *r.pick(&[0u16, 1, 2, 3, 4]) + if r.chance(1, 2) { 0 } else { 65535 - 4 };
+                            MFault::Insert(pos, *r.pick(&[b' ', b'\n', 0u8, b'0', b'T', b'\t']))
+                        }
                     }
-                    _ => MFault::DupPrefix(r.range(1, 4) as u16),
+                    _ => {
+                        if r.chance(1, 2) {
+                            MFault::DupPrefix(r.range(1, 4) as u16)
+                        } else {
+                            MFault::Lower(r.below(4) as u16)
+                        }
+                    }
                 });
             }
         }
@@ -1092,8 +1127,20 @@ impl Scenario for C16Mock {
                     0..=2 => MFault::Flip(r.below(160) as u16, r.below(8) as u8),
                     3..=4 => MFault::Subst(r.below(160) as u16, *r.pick(&[0u8, 0x30, 0x31, 0xa9, 0xaa, 0xff, b'g', b'G', b't', b'@', 0x80])),
                     5 => MFault::Truncate(r.below(150) as u16),
-                    6 => MFault::Append(vec![b'0'; r.range(1, 3) as usize]),
-                    _ => MFault::DupPrefix(r.range(1, 2) as u16),
+                    6 => {
+                        if r.chance(1, 2) {
+                            MFault::Append(vec![*r.pick(&[b'0', b' ', 0u8, b'\n']); r.range(1, 3) as usize])
+                        } else {
+                            MFault::Insert(*r.pick(&[0u16, 0, 1, 2, 65535, 65534]), *r.pick(&[b' ', b'\n', 0u8, b'0', b'T', b'\t']))
+                        }
+                    }
+                    _ => {
+                        if r.chance(1, 2) {
+                            MFault::DupPrefix(r.range(1, 2) as u16)
+                        } else {
+                            MFault::Lower(r.below(3) as u16)
+                        }
+                    }
                 });
             }
         }
